@@ -36,6 +36,7 @@ def _handwritten(b):
 
 def rule_names_unambiguous(ctx, P):
     R = P + "/names-unambiguous"
+    rule_write_only_copy(ctx, P)      # the other guard of what the engines assume (copies are values, not objects); same hook
     prog = ctx.prog
     local = collections.defaultdict(set)
     for b in prog.bodies:
@@ -83,3 +84,58 @@ def rule_names_unambiguous(ctx, P):
     ctx.check(not new_lf, R, "foreign-functions", None, "no function of the crate carries the name of a foreign function it calls, beyond the reviewed ones",
               "function(s) of the crate named like a foreign function the crate calls — %s: an unqualified call or method call may now resolve to the local one" % ", ".join("%s (%s)" % (n, sorted(local[n])[0]) for n in new_lf)[:300],
               nontrivial=False, unproven=True)
+
+
+
+COPY_FUNCS = {"std::clone::Clone::clone", "core::slice::<impl [T]>::to_vec", "alloc::slice::<impl [T]>::to_vec", "std::slice::<impl [T]>::to_vec",
+              "std::borrow::ToOwned::to_owned"}
+
+
+def rule_write_only_copy(ctx, P):
+    """lost updates: the origin engine treats `x.clone()`, `s.to_vec()`, `s.to_owned()` as the value they copy (right for "where does
+    this value come from", blind to "which object is written").  An owned copy that is borrowed mutably and never read afterwards — not
+    moved, not passed on, not returned, not borrowed shared — receives updates nobody sees: `let mut rest = chunks.into_remainder().to_vec();
+    for b in &mut rest { *b = 0 }` zeroes a temporary and leaves the caller's bytes as they were (seeded C12-t).  Checked for every
+    copying call of the crate, under every property (whichever rule follows the value through the copy is the one that is fooled)."""
+    import json
+    R = P + "/lost-update"
+    n = 0
+    for b in ctx.prog.bodies:
+        if "::test" in b.short or b.short.startswith("bin::"):
+            continue
+        for bi, t in b.calls():
+            cv = CalleeView(t["callee"])
+            if cv.short not in COPY_FUNCS or not t.get("dest") or t["dest"]["proj"]:
+                continue
+            n += 1
+            L = t["dest"]["l"]
+            muts = reads = 0
+            if L == 0:
+                reads += 1
+            p1, p2 = '"l": %d,' % L, '"l": %d}' % L
+            for blk in b.blocks:
+                for st in blk["stmts"]:
+                    if st["k"] != "assign":
+                        continue
+                    r = st["r"]
+                    if r["k"] == "ref" and r["p"]["l"] == L:
+                        if r["bk"] == "mut":
+                            muts += 1
+                        else:
+                            reads += 1
+                    else:
+                        js = json.dumps(r)
+                        if p1 in js or p2 in js:
+                            reads += 1
+                tt = blk["term"]
+                if tt["k"] == "call":
+                    for a in tt["args"]:
+                        if isinstance(a, dict) and a.get("k") in ("copy", "move") and a["p"]["l"] == L:
+                            reads += 1
+                elif tt["k"] == "switch" and "p" in tt["o"] and tt["o"]["p"]["l"] == L:
+                    reads += 1
+            if muts and not reads:
+                ctx.violated(R, ("write-only-copy", b.short.split("::{closure")[0].split("::")[-1]), b.where(bi),
+                             "%s makes an owned copy (%s, a %s) that is then only written to and dropped: every update applied to it is lost, the original keeps its contents" % (b.short, cv.short.split("::")[-1], b.locals[L]["ty"][:40]))
+    ctx.check(n >= 20, R, "copy-sites", None, "%d copying calls (clone / to_vec / to_owned) examined: none is a write-only copy" % n,
+              "only %d copying calls found (floor 20): the scan is not looking at the crate" % n, nontrivial=False)
